@@ -1210,9 +1210,12 @@ class CodeGenerator(StructuredCodeGenerator):
         sym_table = self.sym_kind_table.per_phase_table.get(
                 self.current_function, {})
 
+        # Every variable is released here: the release after a variable's last
+        # use (see emit_deinit_for_last_usage_of_vars) is skipped if that use
+        # sits in a block that is not executed or if the step exits early.
+        # Releasing twice is harmless, released variables are nullified.
         for identifier, sym_kind in sorted(sym_table.items()):
-            if (identifier, self.current_function) not in self.last_used_stmt_table:
-                self.emit_variable_deinit(identifier, sym_kind)
+            self.emit_variable_deinit(identifier, sym_kind)
 
         # }}}
 
